@@ -106,3 +106,48 @@ Example errs_within_example :
   errs_within 1 1 (1 # 1000000000000000)
     [FAdd (FAdd (FMul (FVar 18) (FVar 0)) (FMul (FVar 19) (FVar 3))) (FMul (FVar 20) (FVar 6))] = true.
 Proof. vm_compute. reflexivity. Qed.
+
+(** ** from_angle: the arithmetic over libm's sin / cos values *)
+Lemma from_angle_fe_tied : forall p y r,
+  map (fe_exact (from_angle_inputs p y r)) from_angle_fe =
+  let m := from_angle p y r in [aa m; ab m; ac m; ba m; bb m; bc m; ca m; cb m; cc m].
+Proof. tie. Qed.
+
+Lemma sin_cos_le1 : forall t, Rabs (sin t) <= 1 /\ Rabs (cos t) <= 1.
+Proof. intro t. pose proof (SIN_bound t). pose proof (COS_bound t). split; apply Rabs_le; lra. Qed.
+
+(** Every input is a sine or a cosine (the translator admits nothing else as an input), hence bounded by 1. *)
+Lemma from_angle_inputs_le1 : forall p y r n, Rabs (from_angle_inputs p y r n) <= Q2R 1.
+Proof.
+  intros p y r n. rewrite Q2R_1'. unfold from_angle_inputs.
+  repeat (destruct n as [|n]; [first [apply (proj1 (sin_cos_le1 _)) | apply (proj2 (sin_cos_le1 _))]|]).
+  first [apply (proj1 (sin_cos_le1 _)) | apply (proj2 (sin_cos_le1 _))].
+Qed.
+
+(** Matrix.from_angle in binary64 against the exact rotation [from_angle p y r]: if the sin / cos values the arithmetic
+    runs on ([inp]: what libm returned for the float radians) are within [d] of the real sin / cos of the real angles,
+    every entry of the float matrix is within [tol] of the entry of the exact rotation - and therefore at most 1 + tol in
+    absolute value (the [mat_within] hypothesis of the two theorems above is met by matrices built this way). *)
+Theorem from_angle_binary64_error : forall d tol, errs_within_in 1 d tol from_angle_fe = true ->
+  forall p y r inp, (forall n, Rabs (inp n - from_angle_inputs p y r n) <= Q2R d) ->
+  forall i, (i < 9)%nat ->
+  let fl := nth i (map (fe_fl rnd64 inp) from_angle_fe) 0 in
+  let ex := nth i (let m := from_angle p y r in [aa m; ab m; ac m; ba m; bb m; bc m; ca m; cb m; cc m]) 0 in
+  Rabs (fl - ex) <= Q2R tol /\ Rabs fl <= 1 + Q2R tol.
+Proof.
+  intros d tol Hok p y r inp Hinp i Hi fl ex.
+  assert (E : Rabs (fl - ex) <= Q2R tol).
+  { subst fl ex. rewrite <- (from_angle_fe_tied p y r).
+    pose proof (binary64_error_within_in 1 d tol from_angle_fe Hok (from_angle_inputs p y r) inp
+                  (from_angle_inputs_le1 p y r) Hinp) as H.
+    assert (L9 : length from_angle_fe = 9%nat) by reflexivity.
+    rewrite (nth_indep _ 0 (fe_fl rnd64 inp (FVar 0))) by (rewrite map_length, L9; exact Hi).
+    rewrite (nth_indep (map (fe_exact _) _) 0 (fe_exact (from_angle_inputs p y r) (FVar 0))) by (rewrite map_length, L9; exact Hi).
+    rewrite !map_nth. apply H. apply nth_In. rewrite L9. exact Hi. }
+  split; [exact E|].
+  assert (X : Rabs ex <= 1).
+  { subst ex. assert (Hrot : rotation (from_angle p y r)) by (split; [apply from_angle_orthonormal | apply from_angle_det_one]).
+    destruct (rotation_entries_le1 _ Hrot) as (S1 & S2 & S3 & S4 & S5 & S6 & S7 & S8 & S9).
+    cbv zeta. do 9 (destruct i as [|i]; [cbn [nth]; assumption|]). exfalso. do 9 apply Nat.succ_lt_mono in Hi. inversion Hi. }
+  replace fl with (ex + (fl - ex)) by ring. eapply Rle_trans; [apply Rabs_triang|]. lra.
+Qed.
